@@ -519,6 +519,9 @@ pub fn run_sim(cfg: SimCfg, scratch: &Path, wall_limit_s: u64) -> Outcome {
             if now >= max_ms { break; }
             if wall0.elapsed().as_secs() >= wall_limit_s { watchdog = true; break; }
         }
+        // panics are attributed only up to here: once the harness stops the manager (which the real
+        // program never does) connection tasks may fail to report to it
+        let panics_seen = panics::take();
         // --- is the manager still alive and answering? ------------------------------------------
         let mut final_snapshot = None;
         let mut alive = false;
@@ -544,7 +547,7 @@ pub fn run_sim(cfg: SimCfg, scratch: &Path, wall_limit_s: u64) -> Outcome {
         let mut inner = log.0.borrow_mut();
         Outcome {
             events: std::mem::take(&mut inner.events),
-            panics: vec![],
+            panics: panics_seen,
             session_panicked,
             session_alive_at_end: alive,
             final_snapshot,
@@ -558,7 +561,7 @@ pub fn run_sim(cfg: SimCfg, scratch: &Path, wall_limit_s: u64) -> Outcome {
     });
     drop(local);
     rt.shutdown_timeout(std::time::Duration::from_secs(5));
-    out.panics = panics::take();
+    let _ = panics::take();
     // final listing of everything that is not a piece file
     for (p, (is_dir, _, _)) in crate::checks::c03::listing(&scratch.join("cwd")) {
         if !is_dir && p.extension().map(|e| e != "piece").unwrap_or(true) {
